@@ -152,6 +152,39 @@ CLAIMED["C16"] = (
     "DESIGN.md §3 C16",
 )
 
+CLAIMED["C17"] = (
+    "proptest grammar-based differential: generated scripts vs the Tree built by the corresponding Rust calls (structural equality)",
+    "Scripts are generated from a grammar of tree expressions and shape-constructor call forms together with the expected Tree; the engine's "
+    "result must be structurally equal. Covers number-on-the-left operators, method forms, array-to-union coercion, let bindings, map / positional "
+    "/ ordered / tree-first / chained / two-tree / reduction forms, vecN and array vectors, vec2->vec3 promotion, and rejection of comparisons. Exploration.",
+    "Only forms documented in fidget_rhai's crate docs are generated; number-op-number sub-expressions are never generated.",
+    "DESIGN.md §3 C17",
+)
+CLAIMED["C18"] = (
+    "proptest stateful histories on Canvas2/Canvas3 with invariants checked after every event",
+    "Generated event histories (interact, begin_drag, drag, end_drag, zoom, resize) with arbitrary screen positions, scroll amounts and image "
+    "sizes; after every event the zoom-about-cursor, pan-keeps-grabbed-point, rotate, changed-flag and matrix-composition invariants are checked "
+    "against a small model that mirrors only whether a drag is active. The whole history shrinks as one value. Exploration.",
+    "Scales outside 1e-20..1e20 are treated as outside the domain (degenerate view).",
+    "DESIGN.md §3 C18",
+)
+CLAIMED["C19"] = (
+    "proptest generated well-conditioned consistent linear systems with known solutions; residual / key-set / exact-start / backend-agreement predicates",
+    "Generated diagonally dominant systems of 1-40 unknowns with random sparsity, a random subset of parameters fixed at their solution values and "
+    "random starts; the oracle is a validity predicate (exactly the free keys, small residual of the original system, bit-identical return for exact starts, "
+    "backend agreement), not one expected answer. Exploration.",
+    "Systems with no free parameter are outside the stated quantifier. HashMap iteration order makes the solver's internal ordering vary between runs; the predicates do not depend on it.",
+    "DESIGN.md §3 C19",
+)
+CLAIMED["C20"] = (
+    "proptest local obligations on traces: symbolic pass over the public register tape binds each choice clause to the evaluator's own exported operand values; shape checks on bulk outputs and tapes",
+    "Generated DAGs with many choice clauses, every node exported; for interpreter and JIT point and interval evaluators each reported trace entry "
+    "must equal the choice implied by the documented rule on the operands the evaluator itself produced, traces must have choice_count entries and "
+    "no Unknown, None only when nothing is decided, the two back ends agree clause by clause, and bulk results / tapes have the advertised shapes. Exploration.",
+    "Operand values are read from the evaluator's own outputs, so tolerated zero-sign / NaN differences upstream cannot cause false alarms.",
+    "DESIGN.md §3 C20",
+)
+
 NOT_YET = {
 }
 
